@@ -1488,6 +1488,24 @@ def gen_leapfile(tier, seed):
         out.append(f"leapfile_lookup {enc(shipped)} {c} {n}")
     lines = shipped.split("\n")
     data_idx = [i for i, l in enumerate(lines) if l and not l.startswith("#")]
+    # the same table with other white space between and after the columns, with and without the trailing comment, LF and CRLF
+    import re as _re
+    for sep in (" ", "  ", "   ", "\t", "\t\t", "\t\t\t", " \t ", "  \t", "        ", "\t ", " \t"):
+        for keep_comment in (True, False):
+            for eol in ("\n", "\r\n"):
+                ls = []
+                for l in lines:
+                    if l and not l.startswith("#"):
+                        cols = l.split("#", 1)
+                        f = cols[0].split()
+                        l2 = f[0] + sep + f[1]
+                        if keep_comment and len(cols) > 1:
+                            l2 += sep + "#" + cols[1]
+                        ls.append(l2)
+                    else:
+                        ls.append(l)
+                data = [l for l in ls if l and not l.startswith("#")]      # every entry, a few of the comment lines around them
+                out.append("leapfile_iers " + enc(eol.join(ls[:2] + data[:10] + ["#", ""] + data[10:] + ls[-2:]) + eol))
     fixed = ["", "\n", "#\n", "# only a comment", "10 5", "10 5\n", "10 5\r\n", "10 5\r", "10\n", "10 \n", " \n", "\t\n", "-10 5\n", "+10 +5\n", "10 -5\n",
              "10 256\n", "10 255\n", "10 5 6 7\n", " # not a comment\n", "18446744073709551615 1\n", "18446744073709551616 1\n", "5 1\n3 2\n", "1e3 4\n",
              "0x10 4\n", "007 08\n", "10\u00a05\n", "10\u20035\n", "10\u200b5\n", "\u0661\u0660 5\n", "10 5\n\n\n20 6\n", "10 5\x0b20 6\n", "10 5\x0c\n", "10,5\n", "10.0 5\n",
